@@ -243,6 +243,12 @@ add("cap:importer-constant-from-imported-file", "msg", "bool[EARLY] zz = 201", F
 add("constref:importer-constant-from-imported-file", "top", "const ZX = EARLY + 1", False, only=["LIBTOP"])
 add("alias:importer-name-from-imported-file", "top", "type ZA = Early[2]", False, only=["LIBTOP"])
 add("typeref:array-of-array-alias-ok", "top", ["type ZRow = uint3[2]", "message ZGrid {", "    ZRow[2] g = 1", "}"], True)
+# --- identifiers that merely START with a type name or keyword are ordinary identifiers; a type name glued to an identifier is not a field
+add("ident:type-prefixed-names-ok", "top", ["type int16_t = int16", "message ZPre {", "    uint8 uint8_len = 1", "    int16_t int32x = 2", "    bool boolean = 3", "    byte bytes = 4",
+                                            "    uint3 message_id = 5", "    uint3 enumx = 6", "    uint3 constant = 7", "    uint3 typed = 8", "    uint3 imported = 9", "    uint3 option_a = 10", "}"], True)
+add("ident:type-glued-to-name", "msg", "uint8x = 201", False)
+add("ident:int-type-glued-to-name", "msg", "int16y = 201", False)
+add("ident:bool-glued-to-name", "msg", "boolz = 201", False)
 # --- constant references
 add("constref:undefined", "top", "const ZX = ZNOPE", False)
 add("constref:defined-later", "top", "const ZX = LATER", False, only=["TOP0", "TOP1"])
